@@ -232,6 +232,16 @@ func (rn *runner) do(line string) {
 		return
 	}
 	after := w.cur
+	for _, m := range w.hookBad {
+		rn.fail("C08", "hooks", fmt.Sprintf("%q: %s (every registered load hook runs for every activation between the init and the begin flow, in registration order; unload hooks between term and final, last registered first)", line, m))
+	}
+	w.hookBad = nil
+	if strings.HasPrefix(line, "hook ") {
+		rn.res.lines = append(rn.res.lines, line)
+		rn.res.outs = append(rn.res.outs, ret)
+		rn.c.Hit("op-hook-" + strings.Fields(line)[1])
+		return
+	}
 	// Close frees unrelated symbols in map order: its events are always compared as a set
 	obs := w.observe(rn.seq && !strings.HasPrefix(line, "close"), ret, evs)
 	if strings.HasPrefix(line, "close") && strings.HasPrefix(ret, "err") {
@@ -281,7 +291,7 @@ func (rn *runner) oracleC06(line string, links []string) {
 		rn.fail("C06", "contents", fmt.Sprintf("after %q the table holds ids [%s], the latest inserted and not removed are [%s]", line, got, ints(want)))
 	}
 	for id, l := range w.cur {
-		if w.tbl.Lookup(idOf(id)) != l.sb {
+		if w.table().Lookup(idOf(id)) != l.sb {
 			rn.fail("C06", "contents", fmt.Sprintf("after %q Lookup(%d) is not the latest inserted symbol", line, id))
 		}
 	}
@@ -546,6 +556,15 @@ func runLines(c *lib.Ctx, which string, lines []string) *caseResult {
 	rn := &runner{w: newWorld(), res: &caseResult{}, which: which, c: c}
 	for _, l := range lines {
 		f := strings.Fields(l)
+		if len(f) >= 3 && f[0] == "mode" && f[1] == "opts" {
+			for _, x := range f[2:] {
+				n, _ := strconv.Atoi(x)
+				rn.w.opts = append(rn.w.opts, n)
+			}
+			rn.res.lines = append(rn.res.lines, l)
+			rn.res.outs = append(rn.res.outs, "ok")
+			continue
+		}
 		if len(f) == 2 && f[0] == "mode" {
 			if f[1] == "reuse" {
 				rn.w.reuse = true
@@ -562,7 +581,7 @@ func runLines(c *lib.Ctx, which string, lines []string) *caseResult {
 		}
 	}
 	if !rn.res.blocked {
-		lib.WithTimeout(5e9, func() { rn.w.tbl.Close() })
+		lib.WithTimeout(5e9, func() { rn.w.table().Close() })
 	}
 	for i := range rn.res.fails {
 		rn.res.fails[i].Replay = replayOf(rn.res.lines, rn.res.outs)
@@ -594,10 +613,37 @@ func genCase(c *lib.Ctx, r *lib.RNG, which string) []string {
 	if u.reuse {
 		lines = append(lines, "mode reuse")
 	}
+	// the table is built from 2–3 TableOptions with 1–2 load and unload hooks each
+	nHooks := 2 // hook ids: 1,2 for the default single option
+	multi := r.Chance(map[string]int{"C06": 2, "C07": 3, "C08": 5}[which], 10)
+	if multi {
+		no := r.Range(2, 3)
+		l := "mode opts"
+		nHooks = 0
+		for i := 0; i < no; i++ {
+			k := r.Range(1, 2)
+			l += " " + strconv.Itoa(k)
+			nHooks += 2 * k
+		}
+		lines = append(lines, l)
+		c.Hit("table-from-several-options")
+	}
 	// the generator's own view of what is live (names must stay unique among live symbols)
 	cur := map[int]*live{}
 	n := r.Range(4, c.Scale(14, 14))
 	for len(lines)-1 < n {
+		if multi && r.Chance(1, 8) {
+			// Add / Remove a hook on the table that already holds hooks. Load hooks have the odd ids,
+			// unload hooks the even ones (creation order); ids above nHooks are fresh objects. The
+			// first hook of each kind is never removed (the trace needs one notification per kind).
+			kind := lib.Pick(r, []string{"addl", "rml", "addu", "rmu"})
+			k := 2*r.Range(1, nHooks/2+1) + 1
+			if kind == "addu" || kind == "rmu" {
+				k++
+			}
+			lines = append(lines, fmt.Sprintf("hook %s %d", kind, k))
+			continue
+		}
 		switch k := r.Weighted([]int{14, 5, 1}); k {
 		case 0:
 			var d *SymDef
@@ -736,6 +782,8 @@ func RunProp(c *lib.Ctx, which string) {
 	c.Rule = "each case = one universe (≤5 ids + one never-inserted id, ≤8 symbol versions, 2 namespaces, by-id and by-name references, shared targets, self-references, cycles, dangling references; or a chain universe with responders that may fail) and one history of ≤14 Insert (new/replace/rename) / Free / Close on the real symbol.Table with real nodes; after every op keys, out-port links, the reverse-reference index, the active set and the op's events are compared with Uniflow.Table.step. In universes with failing responders a Close ends the case and, when it fails, only the fact that it failed is compared with the model (what is left depends on map order); the C08 oracle checks on the real log that the returned error is the failing flow's, that nothing runs after it and what is left in the table. Non-trivial: ≥5 lines, a link existed and an unload happened; distinct by the op lines."
 	c.Assumptions = []string{
 		"a *Symbol object that is inserted again after it was freed, replaced or removed by Close behaves like a fresh one (cases of the 'reused objects' universes insert the very same object again; the model's symbols are ids, so it only says what the wiring must be)",
+		"the model has one load / unload notification per activation: the harness's table holds 1–5 load and unload hooks (2–3 TableOptions in a share of the cases, plus Add/Remove on the live table) and collapses the calls of one notification into one event only when they are exactly the registered hooks in registration order (unload: last registered first); anything else is an oracle failure [hooks]",
+		"namespaces and names are strings containing \"/\" chosen so that two different (namespace, name) pairs have the same \"<namespace>/<name>\" text; the model keys the name index by the pair",
 		"names are unique per namespace among live symbols (generator enforces it; it is what the runtime's unique index gives the table); each port reference has exactly one of id / name; ids are non-nil",
 		"port names are canonical (no use of the alias out == out[0] of OneToManyNode); no spec names the error port",
 		"lifecycle targets answer every packet (harness nodes always answer; a target that never answers blocks exec in Go and is outside the model)",
